@@ -34,10 +34,7 @@ def worker(job):
     rng = random.Random(job['seed'])
     cases = [dagcase.gen_case(rng, max_tids=job['max_tids'], backend=job.get('backend')) for _ in range(job['n'])]
     cases = job.get('corpus', []) + cases
-    for c in cases:  # JSON round trip normalisation of corpus cases
-        c['pre'] = {int(k): v for k, v in c['pre'].items()}
-        c['shapes'] = [tuplify(s) for s in c['shapes']]
-        c['inst'] = [(t, list(ch)) for t, ch in c['inst']]
+    cases = [normalise(c) for c in cases]
     lines = [dagcase.encode(c) for c in cases]
     model = driver.run_lines(lines)
     wd = tempfile.mkdtemp(prefix='verif-dag-')
@@ -82,6 +79,15 @@ def worker(job):
     finally:
         shutil.rmtree(wd, ignore_errors=True)
     return rep
+
+
+def normalise(c):
+    """JSON round trip normalisation of a case"""
+    c = dict(c)
+    c['pre'] = {int(k): v for k, v in c['pre'].items()}
+    c['shapes'] = [tuplify(s) for s in c['shapes']]
+    c['inst'] = [(t, list(ch)) for t, ch in c['inst']]
+    return c
 
 
 def tuplify(x):
